@@ -74,6 +74,9 @@ def gen_params(rng, tier):
         d = dict(base)
         d[a], d[b] = NAN, -1.0
         yield dict(kind='check', **d)
+    # accepted probabilities that are NOT whole percentages, on boards large enough for the loose-tile frequency to show
+    for pt in (0.004, 0.996, 0.125, 0.5551):
+        yield dict(kind='check', **dict(base, width=12, length=12, pt=pt, pr=0.123, pl=0.0049, pb=0.3333, seed=5))
     # the command line end to end (nothing intercepted but the file system): non-square shapes, both flags
     for (w, l, fd) in [(4, 2, False), (2, 3, True), (1, 3, False), (3, 1, True), (2, 2, False)] + ([(5, 2, True), (1, 1, False), (2, 5, False)] if tier == 'thorough' else []):
         yield dict(kind='e2e', seed=rng.randrange(100), width=w, length=l, fd=fd, pr=0.2, pl=0.3, pt=0.4, pb=0.15, m=rng.choice([1, 3, 6]))
@@ -161,6 +164,20 @@ def check_params(inp, mods, rng=None):
         else:
             if rec['error'] or rec['written'] is None:
                 F.append(({'C15', 'C11'}, 'in-range-generates', f'main failed with {rec["error"]} for the documented set {args}'))
+            else:
+                # the board the command line produces is THE board of these parameters (the requested loose-tile probability, reward
+                # bound and shape, not rounded or otherwise adjusted ones), and the three break probabilities reach the writers as given
+                try:
+                    want_board = rg.gen_rnd_board(inp['seed'], inp['length'], inp['width'], inp['pt'], inp['m'], False)
+                    got = rec['written'][1]
+                    if len(got) == 8:
+                        if (got[0], got[1]) != (inp['length'], inp['width']) or tuple(got[2:5]) != tuple(want_board):
+                            F.append(({'C15', 'C11'}, 'main-board-is-the-board-of-its-parameters',
+                                      f'main with {args} hands write_robots a {got[0]}x{got[1]} board that differs from gen_rnd_board(seed={inp["seed"]}, length={inp["length"]}, width={inp["width"]}, prob_loose_tile={inp["pt"]!r}, max_reward={inp["m"]}, force_down=False)'))
+                        if tuple(got[5:8]) != (inp['pb'], inp['pr'], inp['pl']):
+                            F.append(({'C15', 'C11'}, 'main-passes-the-given-probabilities', f'main with {args} hands write_robots (tile, robot, light) = {tuple(got[5:8])!r}, given {(inp["pb"], inp["pr"], inp["pl"])!r}'))
+                except BaseException as e:   # noqa
+                    F.append(({'C15', 'C11'}, 'board-error', f'gen_rnd_board for the accepted set {args} raised {type(e).__name__}: {e}'))
         return F
     # boards
     seed, L, W, p, m, fd, stub = inp['seed'], inp['length'], inp['width'], inp['p'], inp['m'], inp['fd'], inp['stub']
